@@ -496,7 +496,7 @@ pub fn gen_blackout(seed: u64, params: &Params) -> Scenario {
         // sender (acknowledgements, the reply to its sync frame) has to get out although its send
         // credit is spent nearly all the time
         let mut r = Rng::new(seed ^ 0x5a8);
-        s.cfg[1].max_send_rate = *r.pick(&[1472u32, 2000, 3000]);
+        s.cfg[1].max_send_rate = 1472;
         let t = &mut s.traffic[1];
         t.per_step_p = 1.0;
         t.burst = (20, 60);
@@ -506,7 +506,10 @@ pub fn gen_blackout(seed: u64, params: &Params) -> Scenario {
         t.total = 400;
         t.mode_w = *r.pick(&[[0, 3, 1, 1], [0, 1, 0, 1], [1, 2, 1, 1]]);
         t.stop_ns = fair + r.range(60, 300) * SEC;
-        s.cadence[1] = Cadence::Fixed(*r.pick(&[MS, 5 * MS, 16 * MS + 666_667]));
+        // (stepped every 3..5 ms at one frame per second: its credit is non-negative in about one
+        // step in 250)
+        s.cadence[1] = Cadence::Fixed(*r.pick(&[3 * MS, 4 * MS, 5 * MS]));
+        s.max_steps = s.max_steps.max(6_000_000);
         s.cfg[0].rx_alloc = s.cfg[0].rx_alloc.max(20_000);
         t.amb_p = 0.0;
         if t.channels.is_empty() {
